@@ -7,8 +7,8 @@ import numpy as np
 from harness import common as C
 from harness import eofgen as G
 
-ANCHORS = ["T3", "T3b", "T4", "T5eof"]
-MODELS = ["ScalerCase", "EofCase"]
+ANCHORS = ["T3", "T3b", "T4", "T5eof", "T5hil"]
+MODELS = ["ScalerCase", "EofCase", "HilbertCase"]
 RULE = ("scaler: all 16 flag/weight combinations x random shapes and scales; models: EOF/ComplexEOF/HilbertEOF (and the CPCCA family) with all "
         "modes kept x flags x weights/coslat; arbitrary score arrays with arbitrary sample coordinates for transform o inverse; "
         "non-trivial: >= 2 samples, >= 2 distinct values, numeric comparison performed; distinct by input hash")
@@ -250,6 +250,70 @@ def probe_hilbert_uncentred(ctx):
                           dict(kind="recon", cfg=cfg, max_err=err))
 
 
+def run_hilbert(ctx):
+    """correspondence of Model/Hilbert.v with _hilbert_transform_with_padding, column by column, plus the two facts the
+    theorems state, on the implementation: real part = input, imaginary part has zero mean"""
+    from scipy.signal import hilbert as analytic
+    from xeofs.utils.hilbert_transform import _hilbert_transform_with_padding, _pad_exp
+    rng = ctx.rng.child("c03hil").np
+    N = ctx.n(40, 600)
+    cases, metas = [], []
+    for i in range(N):
+        n, p = int(rng.integers(3, 12)), int(rng.integers(1, 4))
+        scale = float(10.0 ** rng.integers(-3, 4))
+        y = (np.cumsum(rng.standard_normal((n, p)), axis=0) + rng.standard_normal(p) * 3) * scale
+        padding = ["exp", "none"][i % 2]
+        decay = float(rng.choice([0.05, 0.2, 1.0]))
+        ctx.case(("hilbert", n, p, padding, decay, i), nontrivial=n >= 4, tag="hilbert_transform/%s" % padding, sample=dict(kind="hilbert", shape=[n, p], padding=padding, decay=decay))
+        try:
+            R = _hilbert_transform_with_padding(y.copy(), padding=padding, decay_factor=decay)
+        except Exception as e:
+            ctx.violation("C03:hilbert:error:" + C.errkind(e), "_hilbert_transform_with_padding raised %r" % (e,), dict(kind="hilbert", y=y, padding=padding))
+            continue
+        tol = 1e-9 * (np.abs(y).max() + 1e-300)
+        if R.shape != y.shape or not np.allclose(R.real, y, atol=tol, rtol=0):
+            ctx.violation("C03:hilbert:real-part", "the real part of the Hilbert-augmented data differs from the data (padding=%s): max diff %.3g" % (
+                padding, float(np.abs(R.real - y).max()) if R.shape == y.shape else float("nan")), dict(kind="hilbert", y=y, padding=padding, decay=decay))
+        if R.shape == y.shape and not np.allclose(R.imag.mean(axis=0), 0, atol=1e-9 * (np.abs(R.imag).max() + 1e-300)):
+            ctx.violation("C03:hilbert:imag-mean", "the imaginary part of the Hilbert-augmented data has a non-zero mean (padding=%s)" % padding,
+                          dict(kind="hilbert", y=y, padding=padding, decay=decay))
+        x = np.arange(n)
+        coefs = np.polynomial.polynomial.polyfit(x, y, deg=1)
+        yfit = np.polynomial.polynomial.polyval(x, coefs).T.reshape(n, p)
+        yfit_ext = np.polynomial.polynomial.polyval(np.arange(-n, 2 * n), coefs).T.reshape(3 * n, p)
+        y_ext = _pad_exp(y.copy(), decay_factor=decay) if padding == "exp" else y
+        A = analytic(y_ext, axis=0)
+        for j in range(p):
+            pre = (y_ext[:n, j] - yfit_ext[:n, j]) if padding == "exp" else np.zeros(n)
+            pos = (y_ext[2 * n:, j] - yfit_ext[2 * n:, j]) if padding == "exp" else np.zeros(n)
+            cases.append("mkHC %d %s %s %s %s %s %s %s %s %s %s" % (n, C.cbool(padding == "exp"), C.cvec(y[:, j]), C.cvec(yfit[:, j]), C.cvec(yfit_ext[:, j]),
+                                                                  C.cvec(pre), C.cvec(pos), C.cvec(A[:, j].real), C.cvec(A[:, j].imag), C.cvec(R[:, j].real), C.cvec(R[:, j].imag)))
+            metas.append("n=%d padding=%s decay=%g column %d" % (n, padding, decay, j))
+    if not cases or not ctx.extra.get("model_ok", True):
+        return
+    files, plan = [], []
+    per = 200
+    for sh in range(0, len(cases), per):
+        body = [C.COQ_HEADER, "From XV Require Import Base.Scalar Base.Mat Base.Instances Model.Hilbert Model.HilbertCase.\n",
+                "Definition cases := [\n" + ";\n".join(cases[sh:sh + per]) + "].\n", "Eval vm_compute in check_hilberts %s cases.\n" % C.cf(1e-9)]
+        f = C.write_case_file("C03", "hil%d" % (sh // per), "\n".join(body))
+        files.append(f)
+        plan.append((f, metas[sh:sh + per]))
+    res = C.coq_eval_files(files)
+    bad = []
+    for f, meta in plan:
+        rc, out = res[f]
+        if rc != 0:
+            ctx.oblige("correspondence:%s" % f.split("/")[-1], "correspondence", False, out[-500:])
+            return
+        vals = C.parse_evals(out)
+        for ci, fld in (C.parse_pairs(vals[0]) if vals else []):
+            bad.append((meta[ci], {1: "oracle residual", 3: "real part", 4: "imaginary part"}.get(fld, fld)))
+    ctx.traces += len(cases)
+    ctx.oblige("correspondence:hilbert-model (%d columns: padding, analytic signal, middle third, imaginary mean removed) at binary64" % len(cases), "correspondence",
+               not bad, "disagreements: %r" % (bad[:4],))
+
+
 def run(ctx):
     C.setup_impl_env()
     C.clean_case_files("C03")
@@ -258,6 +322,7 @@ def run(ctx):
     else:
         scaler_cases(ctx)
     run_models(ctx)
+    run_hilbert(ctx)
     probe_hilbert_uncentred(ctx)
     run_cross(ctx)
 
